@@ -29,6 +29,27 @@ REQUIRED_CLASSES = ["approx=exact", "approx=small", "approx=big", "approx=omit",
 XY_OMIT_OK = {"polar", "intersection", "trilateration", "traverse", "azdist", "coords", "polar3d"}
 
 
+def trilateration_resolvable(net, p):
+    """distances to (nearly) collinear stations leave the mirror image: no unique approximate position.  Only stations
+    that are determined before this point count (points are listed in the order of their construction; a distance from a
+    later point was derived from this one); every triple of them must span a proper triangle."""
+    P0 = nm.pmap(net)
+    sts = [cl["from"] if o["to"] == p["id"] else o["to"] for cl in net["clusters"] if cl["k"] == "obs"
+           for o in cl["obs"] if o["t"] == "distance" and (o["to"] == p["id"] or cl["from"] == p["id"])]
+    ids = [q["id"] for q in net["points"]]
+    earlier = ids[:ids.index(p["id"])]
+    sts = [q for q in dict.fromkeys(sts) if q != p["id"] and q in earlier]
+    ok = len(sts) >= 3
+    for i1 in range(len(sts)):
+        for i2 in range(i1 + 1, len(sts)):
+            for i3 in range(i2 + 1, len(sts)):
+                (x1, y1), (x2, y2), (x3, y3) = [(P0[q]["E"], P0[q]["N"]) for q in (sts[i1], sts[i2], sts[i3])]
+                area = abs((x2 - x1) * (y3 - y1) - (x3 - x1) * (y2 - y1))
+                size = max(math.hypot(x2 - x1, y2 - y1), math.hypot(x3 - x1, y3 - y1), math.hypot(x3 - x2, y3 - y2))
+                ok = ok and area > 0.1 * size * size
+    return ok
+
+
 @st.composite
 def case(draw):
     pure = draw(st.integers(0, 5)) == 0
@@ -64,17 +85,7 @@ def case(draw):
             if p["xy"] == "adj" and draw(st.booleans()):
                 ok = rxy in XY_OMIT_OK
                 if rxy == "trilateration":
-                    # distances to collinear stations leave the mirror image: no unique approximate position
-                    P0 = nm.pmap(net)
-                    sts = [cl["from"] if o["to"] == p["id"] else o["to"] for cl in net["clusters"] if cl["k"] == "obs"
-                           for o in cl["obs"] if o["t"] == "distance" and (o["to"] == p["id"] or cl["from"] == p["id"])]
-                    sts = [q for q in dict.fromkeys(sts) if q != p["id"]][:3]
-                    ok = False
-                    if len(sts) == 3:
-                        (x1, y1), (x2, y2), (x3, y3) = [(P0[q]["E"], P0[q]["N"]) for q in sts]
-                        area = abs((x2 - x1) * (y3 - y1) - (x3 - x1) * (y2 - y1))
-                        size = max(math.hypot(x2 - x1, y2 - y1), math.hypot(x3 - x1, y3 - y1), math.hypot(x3 - x2, y3 - y2))
-                        ok = area > 0.1 * size * size
+                    ok = trilateration_resolvable(net, p)
                 if rxy == "vector":
                     ok = any(v["to"] == p["id"] and v["from"] in given_ids
                              for cl in net["clusters"] if cl["k"] == "vectors" for v in cl["obs"])
@@ -112,6 +123,27 @@ def min_sight(net):
         for j in range(i + 1, len(ids)):
             d = min(d, nm.hdist(P[ids[i]], P[ids[j]]))
     return d
+
+
+def local_system_constant_points(net):
+    """ids of points whose approximate position computed by gama lies at 1000.000 m from another point of the network
+    while the true distance is a different one: the signature of the recorded finding (solve_insertion places a point of a
+    local system without any distance at const_distance = 1000 m and the result is taken for real)"""
+    dump, crash = netrun.net_driver(nm.gkf_text(net), "gso", "lin")
+    if crash is not None or not dump or "points" not in dump:
+        return set()
+    truth = nm.pmap(net)
+    pts = [q for q in dump["points"] if q.get("has_xy")]
+    out = set()
+    for a in pts:
+        for b in pts:
+            if a["id"] == b["id"] or a["id"] not in truth or b["id"] not in truth:
+                continue
+            d0 = math.hypot(a["x0"] - b["x0"], a["y0"] - b["y0"])
+            dt = nm.hdist(truth[a["id"]], truth[b["id"]])
+            if abs(d0 - 1000.0) < 1e-6 and abs(dt - 1000.0) > 0.5:
+                out.add(a["id"]); out.add(b["id"])
+    return out
 
 
 def check_result(tag, net, res, mode, stats):
@@ -153,13 +185,11 @@ def check_result(tag, net, res, mode, stats):
             if a is None:
                 # known finding: a total-station target (direction + slope distance + zenith angle, no horizontal distance)
                 # whose station is itself a computed point gets its approximate position from the local-system constant
+                # The finding is recognised by its signature, not by the shape of the network: gama's own approximate position
+                # of the point lies exactly 1000 m (const_distance of the local system) from its station, far from the truth
                 kf = False
                 if (p.get("recipe") or [None])[0] == "polar3d" and not p["give_xy"]:
-                    Pm = {q["id"]: q for q in net["points"]}
-                    for cl in net["clusters"]:
-                        if cl["k"] == "obs" and any(o["t"] == "s-distance" and o["to"] == p["id"] for o in cl["obs"]) \
-                                and not Pm[cl["from"]]["give_xy"]:
-                            kf = True
+                    kf = p["id"] in local_system_constant_points(net)
                 if kf:
                     return ["%s.polar3d_from_computed_station: point %s (direction + slope distance + zenith angle from a station whose own "
                             "coordinates are computed) is not among the adjusted points" % (tag, p["id"])]
@@ -211,6 +241,10 @@ def oracle(c, stats):
     net = c["net"]
     if not gen_net.is_determined(net):
         stats.label("discarded_not_determined")
+        return []
+    if any(p.get("recipe") and p["recipe"][0] == "trilateration" and p["xy"] == "adj" and not p["give_xy"]
+           and not trilateration_resolvable(net, p) for p in net["points"]):
+        stats.label("discarded_trilateration_mirror")       # (cases saved before the rule was tightened)
         return []
     if gen_net.weak_geometry(net):
         # gama's documented protection: a coordinate with an a priori standard deviation above 10 m is removed as
